@@ -1006,8 +1006,9 @@ func init() {
 				RangeAnyReturn: map[string]string{"cfg.ExtKeyUsages": "ekuBad"},
 				InitCondByCall: map[string]string{".ToSignedTreeHead": "shapeFails", ".VerifySTHSignature": "sigFails", ".ParseDSN": "dsnBad", ".ParseConfig": "pgBad"},
 				ErrCalls: map[string]string{"cfg.PrivateKey.UnmarshalNew": "privBad", "ct.NewSignatureVerifier": "verifierFails", "(&ct.GetSTHResponse{": "shapeFails"},
-				Repl: withConsts(c, map[string]string{"cfg.LogId": "logId_", "cfg.IsMirror": "isMirror", "cfg.FrozenSth != nil": "frozenSet", "cfg.PrivateKey == nil": "(!privSet)", "cfg.PrivateKey != nil": "privSet",
+				Repl: withConsts(c, map[string]string{"cfg.LogId": "logId_", "cfg.IsMirror": "isMirror", "cfg.FrozenSth != nil": "frozenSet", "cfg.PrivateKey == nil": "(!privSet)", "cfg.PrivateKey != nil": "privSet", "cfg.PublicKey != nil": "pubSet", "pubKey != nil": "pubSet",
 					"cfg.NotAfterStart != nil": "startSet", "cfg.NotAfterLimit != nil": "limitSet", "start != nil": "startSet", "limit != nil": "limitSet",
+					"vCfg.NotAfterStart != nil": "startSet", "vCfg.NotAfterLimit != nil": "limitSet", "vCfg.NotAfterLimit": "limit_", "vCfg.NotAfterStart": "start_",
 					"(*vCfg.NotAfterLimit)": "limit_", "*vCfg.NotAfterLimit": "limit_", "(*vCfg.NotAfterStart)": "start_", "*vCfg.NotAfterStart": "start_",
 					"len(cfg.ExtKeyUsages) > 0": "true", "cfg.ExtraDataIssuanceChainStorageBackend": "storage_", "conn[0]": "scheme_",
 					"configpb.LogConfig_ISSUANCE_CHAIN_STORAGE_BACKEND_CTFE": "(1 : Int)", "configpb.LogConfig_ISSUANCE_CHAIN_STORAGE_BACKEND_TRILLIAN_GRPC": "(0 : Int)", "len(cfg.CtfeStorageConnectionString)": "connLen", "len(conn)": "nParts",
